@@ -145,7 +145,12 @@ def make_trace(tid, rng, nops=25, **opt):
     ng = rng.randrange(3, 60)
     if v == "cowd":
         ng = rng.randrange(3, 40)
-    if opt.get("many"):  # more grain tables than the 128-entry table cache holds
+    if opt.get("many") == "mid":  # a few dozen grain tables
+        v, grain, gtes, ng = rng.choice(["hosted", "footer", "stream", "se"]), 8, rng.choice([4, 16]), rng.randrange(150, 400)
+        if v == "se":
+            gtes = 64
+        gbytes = grain * 512
+    elif opt.get("many"):  # more grain tables than the 128-entry table cache holds
         v, grain, gtes, ng = rng.choice(["hosted", "footer"]), 8, 4, rng.randrange(600, 800)
         gbytes = grain * 512
     npos = ng + 2
@@ -205,7 +210,7 @@ def run(ctx):
     profs = (SPARSE_T + COWD_T + SE_T) if thorough else (SPARSE_Q + COWD_Q + SE_Q)
     diskprop.replay_states(ctx, "vmdk", sts, profs, build, attrs_of=_attrs, cap=56 if thorough else 32, sectors_api=_sectors)
     check_flat(ctx, rng, 12 if thorough else 4)
-    diskprop.traces(ctx, "vmdk", lambda tid, r: make_trace(tid, r, 40 if thorough else 25), 320 if thorough else 64,
+    diskprop.traces(ctx, "vmdk", lambda tid, r: make_trace(tid, r, 40 if thorough else 25, many=("mid" if tid % 8 == 0 else None)), 320 if thorough else 64,
                     "TraceDisk", "TraceDisk.cfg", lambda t: {"format": "vmdk", "variant": t["variant"]})
 
 
